@@ -131,6 +131,9 @@ pub fn syn(k: &str, cls: &str, w: &[u32], w2: &[u32]) -> Vec<u32> {
         (_, "prefix") => [&[CARET][..], w].concat(),
         (_, "suffix") => [w, &[DOLLAR][..]].concat(),
         (_, "alt") => [w, &[PIPE][..], w2].concat(),
+        (_, "ncalt") => [&[240, QMARK, 258][..], w, &[PIPE][..], w2, &[241][..]].concat(),
+        (_, "flagged") => [&[240, QMARK, 19, 241][..], w].concat(),
+        (_, "named") => [&[240, QMARK, 116, 260, 14, 262][..], w, &[241][..]].concat(),
         (_, "any") => vec![DOT, STAR],
         (_, "opt") => [w, &[QMARK][..]].concat(),
         (_, "altempty") => [w, &[PIPE][..]].concat(),
@@ -620,13 +623,13 @@ pub fn gen_filter(rng: &mut Rng, fe: &str, nchars: u64) -> AFilter {
         if fe == "api" || rng.chance(1, 2) {
             f.pay = PayCrit { k: "sub".into(), cls: "".into(), w, w2: vec![], ic: fe != "api" && rng.chance(1, 2) };
         } else {
-            let cls = *rng.pick(&["contains", "prefix", "suffix", "alt"]);
+            let cls = *rng.pick(&["contains", "prefix", "suffix", "alt", "ncalt", "flagged", "named"]);
             if rng.chance(1, 3) {
                 let i = rng.below(w.len() as u64) as usize;
                 w[i] = DOT;
             }
             let alt: &str = *rng.pick(&["bar", "on", "b", "foo"][..]);
-            let w2 = if cls == "alt" { to_codes(alt, rng, 2) } else { vec![] };
+            let w2 = if cls == "alt" || cls == "ncalt" { to_codes(alt, rng, 2) } else { vec![] };
             f.pay = PayCrit { k: "re".into(), cls: cls.into(), w, w2, ic: rng.chance(1, 2) };
         }
     }
